@@ -9,6 +9,7 @@ Expected panics (string slicing inside a char) are separate tiny programs whose 
 is "evaluation panicked". Known finding K3 (deprecated ptr::is_null / nonnull::new on out-of-bounds
 pointers under const evaluation) is exercised by its own programs.
 """
+import os
 import re
 
 from gcommon import Ctx, first_error, rs_str
@@ -535,6 +536,96 @@ K3_CONTROLS = [
 ]
 
 
+
+# ---------------------------------------------------------------- hostile macro forms (run-time half of "every macro expansion")
+HOSTILE_PRELUDE = r"""
+#![allow(unused, clippy::all)]
+include!("%(ledger)s");
+fn t(i: u32) -> Tok { Tok::new(i) }
+struct S { a: Tok, b: Tok }
+struct P(Tok, Tok);
+struct D { a: Tok, b: Tok }
+impl Drop for D { fn drop(&mut self) { mark("D::drop"); } }
+struct G(Tok, Tok);
+impl Drop for G { fn drop(&mut self) { mark("G::drop"); } }
+fn attempt() {
+%(body)s
+}
+fn main() {
+    let _ = take_log();
+    let r = std::panic::catch_unwind(attempt);
+    let a = audit(&take_log());
+    println!("HOSTILE\t{}\tpanicked={} double_drops={:?} leaked={:?} unknown={:?} double_received={:?} corrupt={:?}", if a.double_drops.is_empty() && a.unknown_drops.is_empty() && a.corrupt.is_empty() { "clean" } else { "dirty" }, r.is_err(), a.double_drops, a.leaked, a.unknown_drops, a.double_received, a.corrupt);
+}
+"""
+
+
+def hostile_forms():
+    """(name, body): destructure! applied where the property says it must not be usable to duplicate
+    ownership - through a reference, or on a type with a Drop impl. Every one is expected to be rejected
+    by rustc; one that compiles is executed over ledger elements and audited."""
+    forms = []
+    for refk, mk in (("&mut ", "&mut v"), ("&", "&v")):
+        for ann in (True, False):
+            a = lambda ty: (": %s%s" % (refk, ty)) if ann else ""
+            nm = refk.strip() + (" annotated" if ann else "")
+            forms.append(("tuple through %s" % nm, "    let mut v = (t(0), t(1));\n    { let r = %s; konst::destructure!{(a, b)%s = r} drop((a, b)); }\n    drop(v);" % (mk, a("(Tok, Tok)"))))
+            forms.append(("1-tuple through %s" % nm, "    let mut v = (t(0),);\n    { let r = %s; konst::destructure!{(a,)%s = r} drop(a); }\n    drop(v);" % (mk, a("(Tok,)"))))
+            forms.append(("array through %s" % nm, "    let mut v = [t(0), t(1)];\n    { let r = %s; konst::destructure!{[a, b]%s = r} drop((a, b)); }\n    drop(v);" % (mk, a("[Tok; 2]"))))
+            forms.append(("array with rest through %s" % nm, "    let mut v = [t(0), t(1), t(2)];\n    { let r = %s; konst::destructure!{[a, rest @ ..]%s = r} drop(a); drop(rest); }\n    drop(v);" % (mk, a("[Tok; 3]"))))
+            forms.append(("braced struct through %s" % nm, "    let mut v = S { a: t(0), b: t(1) };\n    { let r = %s; konst::destructure!{S{a, b}%s = r} drop((a, b)); }\n    drop(v);" % (mk, a("S"))))
+            forms.append(("tuple struct through %s" % nm, "    let mut v = P(t(0), t(1));\n    { let r = %s; konst::destructure!{P(a, b)%s = r} drop((a, b)); }\n    drop(v);" % (mk, a("P"))))
+    for ann in (True, False):
+        forms.append(("braced Drop struct%s" % (" annotated" if ann else ""), "    let v = D { a: t(0), b: t(1) };\n    konst::destructure!{D{a, b}%s = v}\n    drop((a, b));" % (": D" if ann else "")))
+        forms.append(("tuple Drop struct%s" % (" annotated" if ann else ""), "    let v = G(t(0), t(1));\n    konst::destructure!{G(a, b)%s = v}\n    drop((a, b));" % (": G" if ann else "")))
+    forms.append(("Drop tuple struct through the tuple arm", "    let v = G(t(0), t(1));\n    konst::destructure!{(a, b) = v}\n    drop((a, b));"))
+    forms.append(("Box<tuple> through the tuple arm", "    let v = Box::new((t(0), t(1)));\n    konst::destructure!{(a, b) = v}\n    drop((a, b));"))
+    forms.append(("ManuallyDrop<tuple> through the tuple arm", "    let v = core::mem::ManuallyDrop::new((t(0), t(1)));\n    konst::destructure!{(a, b) = v}\n    drop((a, b));"))
+    # controls: the same skeleton by value must compile and conserve every element
+    forms.append(("control: tuple by value", "    let v = (t(0), t(1));\n    konst::destructure!{(a, b): (Tok, Tok) = v}\n    drop((a, b));"))
+    forms.append(("control: array by value", "    let v = [t(0), t(1), t(2)];\n    konst::destructure!{[a, rest @ ..]: [Tok; 3] = v}\n    drop(a); drop(rest);"))
+    forms.append(("control: struct by value", "    let v = S { a: t(0), b: t(1) };\n    konst::destructure!{S{a, b} = v}\n    drop((a, b));"))
+    forms.append(("control: tuple struct by value", "    let v = P(t(0), t(1));\n    konst::destructure!{P(a, b): P = v}\n    drop((a, b));"))
+    forms.append(("Rc<tuple> through the tuple arm", "    let v = std::rc::Rc::new((t(0), t(1)));\n    let w = v.clone();\n    konst::destructure!{(a, b) = v}\n    drop((a, b)); drop(w);"))
+    return forms
+
+
+def run_hostile(cx, out, hist):
+    ledger = os.path.join(kv.HARNESS, "src", "ledger.rs")
+    forms = hostile_forms()
+    srcs = [cx.write("hostile_%02d.rs" % i, HOSTILE_PRELUDE % {"ledger": ledger, "body": body}) for i, (_, body) in enumerate(forms)]
+    comp = cx.compile_many(srcs)
+    executed = 0
+    for (name, body), src, (rc, se, outp) in zip(forms, srcs, comp):
+        if rc is None:
+            raise kv.Inconclusive("watchdog: rustc did not finish on %s" % src)
+        if rc != 0:
+            if name.startswith("control:"):
+                raise kv.Inconclusive("hostile-form control `%s` does not compile: %s" % (name, first_error(se)[:300]))
+            hist["hostile-form/rejected-at-compile-time"] = hist.get("hostile-form/rejected-at-compile-time", 0) + 1
+            continue
+        rc2, so, se2 = cx.run(outp, timeout=600)
+        executed += 0 if name.startswith("control:") else 1
+        m = re.search(r"HOSTILE\t(\S+)\t(.*)", so or "")
+        if rc2 is None:
+            raise kv.Inconclusive("watchdog: %s did not finish" % outp)
+        if rc2 is not None and rc2 < 0:
+            out.fail("C01:misused-macro-compiles-and-crashes:signal-%d" % -rc2, "destructure!", "%s | %s" % (name, body.replace("\n", " ")), "compiles; the program is killed by signal %d" % -rc2, "rejected at compile time, or executes with every element dropped exactly once", "generated-program", cmd=outp, source=src)
+            continue
+        if not m:
+            raise kv.Inconclusive("hostile-form program %s produced no verdict (rc=%s): %s" % (outp, rc2, (se2 or "")[-200:]))
+        hist[("hostile-form/control:" if name.startswith("control:") else "hostile-form/compiles:") + m.group(1)] = hist.get(("hostile-form/control:" if name.startswith("control:") else "hostile-form/compiles:") + m.group(1), 0) + 1
+        if m.group(1) != "clean":
+            out.fail("C01:misused-macro-compiles-and-duplicates-ownership:" + re.sub(r"[^A-Za-z0-9&<> -]", "", name)[:60], "destructure!", "%s | %s" % (name, body.replace("\n", " ")), "compiles; ledger audit: " + m.group(2)[:300],
+                     "rejected at compile time, or executes with every element dropped exactly once", "generated-program", cmd=outp, source=src)
+    out.engines["generated-programs"] = out.engines.get("generated-programs", 0) + len(forms)
+    out.evals += len(forms)
+    out.counters["hostile_forms_attempted"] = len(forms)
+    out.counters["hostile_forms_compiled_and_executed"] = executed
+    out.rules.append("hostile macro forms: one evaluation = one destructure! program that tries to move out of a reference / a Drop type / a smart pointer over ledger elements; rejected by rustc = nothing to execute; a program that compiles is run and its move/drop ledger audited (double drop, drop of an unknown element or corrupted payload = violation)")
+    out.exhaustive.append("hostile forms: {&mut, &} x {annotated, plain} x {tuple, 1-tuple, array, array with rest, braced struct, tuple struct}; Drop structs (braced/tuple, annotated/plain, through the tuple arm); Box / ManuallyDrop / Rc of a tuple through the tuple arm")
+
+
 def strings():
     sigma = ["a", "ñ", "個", "🙂"]
     out = [""]
@@ -612,6 +703,7 @@ def run(out, tier, seed):
                 n += int(f[2])
         evals += n
         out.engines[eng] = out.engines.get(eng, 0) + n
+    run_hostile(cx, out, hist)
     # tiny programs
     rejected_for_the_right_reason = 0
     for (kind, name, src, key), (rc, se, outp) in zip(tiny, res[1:1 + len(tiny)]):
